@@ -235,6 +235,20 @@ func countFloatSignificantDigits(str string) (count uint) {
 	return count
 }
 
+const maxDFloatCoefficientDigits = 18
+
+func countDecimalCoefficientDigits(str string) (count int) {
+	for _, ch := range str {
+		if ch == 'e' || ch == 'E' {
+			break
+		}
+		if ch >= '0' && ch <= '9' {
+			count++
+		}
+	}
+	return count
+}
+
 func (_this *cteListener) ExitValueFloat(ctx *parser.ValueFloatContext) {
 	defer func() {
 		_this.wrapPanic(recover(), ctx.BaseParserRuleContext)
@@ -268,9 +282,13 @@ func (_this *cteListener) ExitValueFloat(ctx *parser.ValueFloatContext) {
 		}
 	}
 
-	if value, err := compact_float.DFloatFromString(str); err == nil {
-		_this.eventReceiver.OnDecimalFloat(value)
-		return
+	// A coefficient of more than 18 digits may not fit in a DFloat, and the
+	// DFloat parser can wrap around silently in that case.
+	if countDecimalCoefficientDigits(strNoSign) <= maxDFloatCoefficientDigits {
+		if value, err := compact_float.DFloatFromString(str); err == nil {
+			_this.eventReceiver.OnDecimalFloat(value)
+			return
+		}
 	}
 
 	decimal, cond, err := apd.NewFromString(strNoSign)
